@@ -219,7 +219,22 @@ package traversal
 // ---- Start: the invariant holds before the run loop and any caller can touch the lookup ----
 //@ func dht/traversal.Start
 //@   requires a-query-function: input.DoQuery != nil
+//@   option records lookup
 //@   ensures the-invariant-holds-from-the-start: opinv(result)
 //@   ensures unlocked: !held(result.mu)
 //@   ensures nothing-queried-nothing-found-yet: result.outstanding == 0 && (forall k addrString :: !(k in result.queried)) && (forall c krpc.NodeInfoAddrPort :: !kmem(result.closest, c))
 //@   ensures one-run-loop: count("go:(*dht/traversal.Operation).run") == 1
+
+// ---- C14: what callers of a lookup use ----
+//@ func (*dht/traversal.Operation).Stalled
+//@   trusted
+//@   option noalloc
+//@ func (*dht/traversal.Operation).Stopped
+//@   trusted
+//@   option noalloc
+//@ func (*dht/traversal.Operation).Stats
+//@   requires nonnil: op != nil
+//@   ensures the-counters-of-this-lookup: result == &op.stats
+//@ func (*dht/traversal.Operation).Closest
+//@   trusted
+//@   option noalloc
